@@ -49,8 +49,6 @@ Definition len32 (v : bytes) : N := N.of_nat (length v) mod 2 ^ 32.
 (* ---------------------------------------------------------------------------------------------- *)
 (* recognisers of the import side *)
 
-Definition all_zero (l : bytes) : bool := forallb (fun b => b =? 0) l.
-
 (* Some i when the key is C(i), 1 <= i <= 16 *)
 Definition fixed_index (k : bytes) : option N :=
   match k with
@@ -274,3 +272,20 @@ Section StateKV.
             (inputs a).
   Definition coll_free (st : state) : bool := forallb (fun sa => coll_free_acc (fst sa) (snd sa)) (st_delta st).
 End StateKV.
+
+(* the type parameters are implicit outside the section *)
+Arguments a_info {sinfo tslots}. Arguments a_storage {sinfo tslots}. Arguments a_pre {sinfo tslots}. Arguments a_lk {sinfo tslots}.
+Arguments Build_account {sinfo tslots}.
+Arguments st_comp {comp sinfo tslots}. Arguments st_delta {comp sinfo tslots}. Arguments Build_state {comp sinfo tslots}.
+Arguments p_info {sinfo tslots}. Arguments p_pre {sinfo tslots}. Arguments p_lk {sinfo tslots}. Arguments Build_pacc {sinfo tslots}.
+Arguments ps_comp {comp sinfo tslots}. Arguments ps_delta {comp sinfo tslots}. Arguments Build_pstate {comp sinfo tslots}.
+Arguments empty_pacc {sinfo tslots}. Arguments empty_pstate {comp sinfo tslots}.
+Arguments comp_kv {comp}. Arguments info_kv {sinfo}. Arguments lk_kv H {tslots}.
+Arguments svc_kvs H {sinfo} enc_info {tslots}. Arguments serialize H {comp} enc_comp {sinfo} enc_info {tslots}.
+Arguments upd_acc {sinfo tslots}. Arguments set_info {sinfo tslots}. Arguments add_pre {sinfo tslots}. Arguments set_lk {sinfo tslots}.
+Arguments step H {comp} dec_comp {sinfo} dec_info {tslots}. Arguments phase1 H {comp} dec_comp {sinfo} dec_info {tslots}.
+Arguments attach_pre H {tslots}. Arguments attach_all H {sinfo tslots}.
+Arguments finalize_acc {sinfo} zero_info {tslots}. Arguments finalize {comp} zero_comp {sinfo} zero_info {tslots}.
+Arguments parse H {comp} dec_comp zero_comp {sinfo} dec_info zero_info {tslots}.
+Arguments inputs {sinfo tslots}. Arguments values {sinfo tslots}. Arguments probes H {sinfo tslots}.
+Arguments coll_free_acc H {sinfo tslots}. Arguments coll_free H {comp sinfo tslots}.
